@@ -366,11 +366,13 @@ type MyPos lexer.Position
 
 // PTok is a production implemented by user code (participle.Parseable): it consumes exactly one token.
 type PTok struct {
-	V string
+	V     string
+	Calls int // how often Parse ran on this value (a production gets a fresh value for every attempt)
 }
 
 // Parse implements participle.Parseable.
 func (p *PTok) Parse(lex *lexer.PeekingLexer) error {
+	p.Calls++
 	t := lex.Peek()
 	if t.EOF() {
 		return participle.NextMatch
@@ -383,13 +385,17 @@ func (p *PTok) Parse(lex *lexer.PeekingLexer) error {
 // PTokR is a user-implemented production that takes one token, but not one spelled with a "b": it consumes the
 // token first and rewinds with a checkpoint (MakeCheckpoint / LoadCheckpoint) when it does not want it.
 type PTokR struct {
-	V string
+	V     string
+	Calls int
+	Seen  string // the token looked at, also when it is then refused
 }
 
 // Parse implements participle.Parseable.
 func (p *PTokR) Parse(lex *lexer.PeekingLexer) error {
+	p.Calls++
 	cp := lex.MakeCheckpoint()
 	t := lex.Next()
+	p.Seen += t.Value
 	if t.EOF() || strings.ContainsAny(t.Value, "bB") {
 		lex.LoadCheckpoint(cp)
 		return participle.NextMatch
